@@ -31,7 +31,7 @@ SCHEDULES = [("seed", 1), ("seed", 2), ("seed", 3), ("preset", "identity"), ("pr
 
 
 def gen_cases(tier, seed):
-    n = 400 if tier == "quick" else 8000
+    n = 400 if tier == "quick" else 40000
     return [{"seed": seed * 100069 + i, "nmax": 40 if tier == "quick" or i % 10 else 400} for i in range(n)]
 
 
